@@ -112,7 +112,12 @@ def check_simplify(ctx, rep, f, rule='R-MODEL.M3'):
         same = None
         printed_eq = False
         unknown = False
+        nullable_vars = set()
         for a in other:
+            mnull = re.fullmatch(r"regexp_accepts_word\((\w+), ''\)", a[1]) if a[0] == 'truthy' and a[3] is True else None
+            if mnull and mnull.group(1) in child_of:
+                nullable_vars.add(mnull.group(1))     # side condition "the child matches the empty word"
+                continue
             if a[0] == 'eq' and a[3] is True and a[1] in child_of and a[2] in child_of:
                 same = (a[1], a[2])
             elif a[0] == 'eq' and a[3] is True and re.fullmatch(r'(str|print_regexp\w*)\((\w+)\)', a[1]) and re.fullmatch(r'(str|print_regexp\w*)\((\w+)\)', a[2]):
@@ -122,6 +127,8 @@ def check_simplify(ctx, rep, f, rule='R-MODEL.M3'):
         for var, fld in child_of.items():
             if var in cons:
                 env[var] = LEAF[cons[var]](fresh)
+            elif var in nullable_vars:
+                env[var] = ('+', ka.ONE, ka.sym(fresh()))     # r is nullable iff r = 1 + r
             else:
                 env[var] = ka.sym(fresh())
         if same:
